@@ -264,16 +264,29 @@ func runScenario(pt, seq string, e, indel, b, l int, pool *seqPool, order int) a
 	ev.Pred, ev.PredBoth = -1, -1
 	if b == 0 && (l == len(seq) || l < 0) { // l < 0: up to the end of the sequence
 		ask := func(both bool) int {
-			r := 0
-			if p, m := guard(func() {
-				if obiapat.IsPatternMatchSequence(pt, e, both, indel == 1)(obiseq.NewBioSequence("verif", []byte(seq), "")) {
-					r = 1
+			// in a goroutine of its own: the predicate ends in log.Fatalf when it cannot complement the pattern (the
+			// captured fatal ends the goroutine that met it, which must not be the one driving the scenarios)
+			res := make(chan int, 1)
+			go func() {
+				r, ended := 0, false
+				defer func() {
+					if !ended {
+						res <- 2
+					}
+				}()
+				p, m := guard(func() {
+					if obiapat.IsPatternMatchSequence(pt, e, both, indel == 1)(obiseq.NewBioSequence("verif", []byte(seq), "")) {
+						r = 1
+					}
+				})
+				ended = true
+				if p != 0 {
+					note(m)
+					r = 2
 				}
-			}); p != 0 {
-				note(m)
-				return 2
-			}
-			return r
+				res <- r
+			}()
+			return <-res
 		}
 		ev.Pred, ev.PredBoth = ask(false), ask(true)
 	}
